@@ -129,8 +129,8 @@ CLAIMS["C10"] = (
     "UTF-16 unit iterators pair bytes in the stated order and drop an odd trailing byte for every input <= 5 bytes; "
     "Encoding::decode for UTF-16LE/BE on one arbitrary code unit (+ arbitrary odd byte) equals a reference transcoder "
     "written from the Unicode standard (every BMP scalar, lone surrogates -> U+FFFD), whatever text the shared destination buffer held before.",
-    "Bound: 1 code unit (2 units and the UTF-8 lossy path are attempted in the thorough tier only: they run out of "
-    "memory at 8-20 GB in String growth / run_utf8_validation). Outside: everything in Decoder::read_line (LF search on "
+    "Bound: 1 arbitrary code unit, or 2 units with a concrete first unit (D83C / DC00 / U+4E0A) and every second unit; "
+    "2 fully symbolic units run out of memory, the UTF-8 lossy path does not finish even on concrete input. Outside: everything in Decoder::read_line (LF search on "
     "raw bytes, the extra byte after LF in UTF-16LE) -- not executable under CBMC (out of memory up to 40 GB); the "
     "defects D4/D5 observed natively there are NOT found by this check (DESIGN.md §6); texts longer than the bound.",
     "DESIGN.md §5 C10",
